@@ -281,6 +281,38 @@ def malformed_multiline(ctx):
                                case=lambda: {'kind': 'malformed', 'data': hexb(data), 'cuts': list(bad_cuts)}, failures=f)
 
 
+def malformed_inserted(ctx):
+    """A well-formed multi-line reply with one extra line (empty, blank, not a reply line, a bare code, a truncated code)
+    inserted at every position, under every single cut, the cuts at all line boundaries and byte-wise delivery: an empty
+    line is skipped only in front of a reply, never inside one, wherever the reads happen to end."""
+    index = 0
+    junk = (b'', b' ', b'abc', b'250', b'25', b'250x', b'-', b'251-z')
+    for nlines in (2, 3):
+        for eol in (b'\r\n', b'\n'):
+            for ins in junk:
+                for at in range(nlines + 1):
+                    lines = [b'250' + (b'-' if k < nlines - 1 else b' ') + b'l%d' % k + eol for k in range(nlines)]
+                    lines.insert(at, ins + eol)
+                    data = b''.join(lines) + b'250 next\r\n'
+                    index += 1
+                    if not ctx.mine(index):
+                        continue
+                    bounds, pos = [], 0
+                    for l in lines:
+                        pos += len(l)
+                        bounds.append(pos)
+                    cutsets = [()] + [(c,) for c in range(1, len(data))] + [tuple(range(1, len(data))), tuple(bounds)]
+                    cutsets += [(a, b) for a in bounds for b in bounds if a < b]
+                    f, bad_cuts = [], ()
+                    for cuts in cutsets:
+                        f = judge_malformed(data, cuts)
+                        if f:
+                            bad_cuts = cuts
+                            break
+                    ctx.record((data, 'inserted'), True, labels=['malformed-inserted-line', classify(data)[0]],
+                               case=lambda: {'kind': 'malformed', 'data': hexb(data), 'cuts': list(bad_cuts)}, failures=f)
+
+
 # -- generators -----------------------------------------------------------------
 
 _codes = st.one_of(st.integers(200, 599).map(str),
@@ -387,6 +419,7 @@ def run_shard(ctx):
         fuzz.run(ctx, ID, 90, FUZZ_SEEDS)
     malformed_exhaustive(ctx, 7 if ctx.thorough else 6)
     malformed_multiline(ctx)
+    malformed_inserted(ctx)
     roundtrip_random(ctx, ctx.n(20000, 400000))
     roundtrip_allcuts(ctx, ctx.n(2000, 40000))
     malformed_random(ctx, ctx.n(20000, 400000))
